@@ -113,6 +113,18 @@ Theorem C12_apply_equations :
 Proof. exact ApplyProofs.C12_apply_equations. Qed.
 Print Assumptions C12_apply_equations.
 
+(* 8. references to global utility rules: a reference answers with the LOCAL utility of that name when there is
+      one — so a local utility without a known kind set is not rescued by a global rule of the same name — and
+      without global rules the kinds are those of Rule/Kinds.v *)
+Example C12_local_shadows_global :
+  let g := [103; 48]%N in
+  let k := {| k_rule := RMatches g; k_utils := [(g, RRegex [])]; k_cons := []; k_trans := None; k_fix := None |} in
+  load {| d_core := k; d_rewriters := None; d_globals := [(g, Some [7%N])] |} = LErr ENoKinds
+  /\ load {| d_core := {| k_rule := RMatches g; k_utils := []; k_cons := []; k_trans := None; k_fix := None |};
+             d_rewriters := None; d_globals := [(g, Some [7%N])] |} = LOk ([], []).
+Proof. vm_compute. split; reflexivity. Qed.
+Print Assumptions C12_local_shadows_global.
+
 (* non-vacuity: `rule: {pattern: foo($A), matches: U}`, `utils: {U: {kind: 7}, W: {not: {matches: U}}}`,
    `transform: {T: {source: $A}, S: {source: $T}}`, `fix: "x$S"` is accepted, S after T; closing the cycle
    W <-> U below `not` / `all` is refused; so is an undefined reference inside a utility body *)
